@@ -141,7 +141,9 @@ func newMultiEnv(c *lib.Ctx, faults bool) *multiEnv {
 	e.job.OnAck = func(a ophar.Ack) {
 		if s := e.byID[a.OperatorID]; s != nil {
 			rng := partitioning.KeyGroupRange{Start: a.Start, End: a.End}
-			snap := s.h.ShadowSnapshot(func(k []byte) bool { return rng.IncludesKeyGroup(partitioning.KeyGroup(ophar.KeyGroupOf(k, e.keyGroups))) })
+			snap := s.h.ShadowSnapshot(func(k []byte) bool {
+				return rng.IncludesKeyGroup(partitioning.KeyGroup(ophar.KeyGroupOf(k, e.keyGroups)))
+			})
 			e.acksMu.Lock()
 			e.ackShadow[a.OperatorID] = snap
 			e.acksMu.Unlock()
